@@ -30,7 +30,7 @@ RULE = ("(a) DiffractionPatterns built directly: sizes 1-33 per axis (odd/even/r
 CLAUSES = ["com-frequency", "com-angle", "com-single-pixel", "com-unshifted", "com-pipeline", "com-result-type",
            "gradient-integral", "gradient-integral-base-chunked", "history"]
 QUICK = dict(n=600, time=40)
-THOROUGH = dict(n=20000, time=240, shards=16)
+THOROUGH = dict(n=160000, time=480, shards=16)
 ASSUMPTIONS = ["centre of mass is judged on unit-total patterns only: for other totals abTEM returns the first moment, not divided "
                "by the total, and the statement's mean is not defined by it",
                "gradient fields are exact gradients of fields without Nyquist components"]
